@@ -186,11 +186,11 @@ struct VLogger : Config::LoggerInterface {
 		Probe& p = *c->probe; if (p.quiet) return;
 		item(p, "sel"); p.log += ','; jint(p.log, sid(head)); p.log += ','; jint(p.log, prong1(prong)); p.log += ']'; }
 #ifdef HFSM2_ENABLE_UTILITY_THEORY
-	static void jrat(std::string& o, const vf::Rational& r) { o += '['; jint(o, r.n); o += ','; jint(o, r.d); o += ']'; }
-	void recordUtilityResolution(const Ctx_& c, const hfsm2::StateID head, const hfsm2::Prong prong, const vf::Rational utility) override {
+	static void jrat(std::string& o, const vf::UtilT& r) { long n, d; vf::utilPair(r, n, d); o += '['; jint(o, n); o += ','; jint(o, d); o += ']'; }
+	void recordUtilityResolution(const Ctx_& c, const hfsm2::StateID head, const hfsm2::Prong prong, const vf::UtilT utility) override {
 		Probe& p = *c->probe; if (p.quiet) return;
 		item(p, "ut"); p.log += ','; jint(p.log, sid(head)); p.log += ','; jint(p.log, prong1(prong)); p.log += ','; jrat(p.log, utility); p.log += ']'; }
-	void recordRandomResolution(const Ctx_& c, const hfsm2::StateID head, const hfsm2::Prong prong, const vf::Rational utility) override {
+	void recordRandomResolution(const Ctx_& c, const hfsm2::StateID head, const hfsm2::Prong prong, const vf::UtilT utility) override {
 		Probe& p = *c->probe; if (p.quiet) return;
 		item(p, "rn"); p.log += ','; jint(p.log, sid(head)); p.log += ','; jint(p.log, prong1(prong)); p.log += ','; jrat(p.log, utility); p.log += ']'; }
 #endif
